@@ -12,8 +12,12 @@ PLAN = {
     "C01": {"level": "exploration", "units": [
         unit("cyc", "TestC01", 3000, 40000, replay="TestReplayC01"),
         unit("cyc", "TestC01Hist", 1200, 15000, seed_off=200)]},
-    "C02": {"level": "exploration", "units": [unit("disc", "TestC02", 700, 12000, replay="TestReplayC02", shrinktime="30s")]},
-    "C03": {"level": "exploration", "units": [unit("loop", "TestC03", 500, 8000, replay="TestReplayC03", shrinktime="30s")]},
+    "C02": {"level": "exploration", "units": [
+        unit("disc", "TestC02", 700, 12000, replay="TestReplayC02", shrinktime="30s"),
+        unit("side", "TestC02Listener", 300, 3000, replay="TestReplayC02Listener", seed_off=900)]},
+    "C03": {"level": "exploration", "units": [
+        unit("loop", "TestC03", 500, 8000, replay="TestReplayC03", shrinktime="30s"),
+        unit("expl", "TestC03Flood", 3, 8, replay="TestReplayC03Flood", seed_off=900, shrinktime="20s")]},
     "C04": {"level": "exploration", "units": [
         unit("cyc", "TestC04", 3000, 40000, replay="TestReplayC04"),
         unit("cyc", "TestC04Hist", 1200, 15000, seed_off=200)]},
@@ -26,7 +30,8 @@ PLAN = {
         unit("cyc", "TestC07Hist", 1200, 15000, seed_off=200)]},
     "C08": {"level": "exploration", "units": [
         unit("cyc", "TestC08", 3000, 40000, replay="TestReplayC08"),
-        unit("cyc", "TestC08Hist", 1200, 15000, seed_off=200)]},
+        unit("cyc", "TestC08Hist", 1200, 15000, seed_off=200),
+        unit("cfgh", "TestC08Reload", 150, 2000, replay="TestReplayC08Reload", seed_off=900)]},
     "C09": {"level": "fault_enumeration", "units": [
         unit("side", "TestC09RoundTrip", 300, 4000, replay="TestReplayC09"),
         unit("side", "TestC09Torn", 12, 150, shrinktime="30s", seed_off=300),
@@ -37,6 +42,7 @@ PLAN = {
     "C12": {"level": "exploration", "units": [
         unit("side", "TestC12", 1000, 6000, replay="TestReplayC12"),
         unit("side", "TestC12Concurrent", 100, 1500, seed_off=400),
+        unit("side", "TestC12Listener", 300, 3000, seed_off=900),
         {"pkg": "side", "test": "FuzzC12", "kind": "fuzz", "fuzztime": {"thorough": "180s"}, "checks": {"quick": 0, "thorough": 0}, "replay": None}]},
     "C13": {"level": "fault_enumeration", "units": [unit("side", "TestC13", 250, 3000, replay="TestReplayC13")]},
     "C14": {"level": "exploration", "units": [
@@ -44,7 +50,8 @@ PLAN = {
         {"pkg": "side", "test": "FuzzC14", "kind": "fuzz", "fuzztime": {"thorough": "180s"}, "checks": {"quick": 0, "thorough": 0}, "replay": None}]},
     "C15": {"level": "exploration", "units": [
         unit("disc", "TestC15", 500, 10000, replay="TestReplayC15"),
-        unit("disc", "TestC15Process", 50, 400, seed_off=700, workers={"quick": 1, "thorough": 4})]},
+        unit("disc", "TestC15Process", 50, 400, seed_off=700, workers={"quick": 1, "thorough": 4}),
+        unit("disc", "TestC15Explore", 300, 4000, seed_off=900)]},
     "C16": {"level": "exploration", "units": [
         unit("cfgh", "TestC16", 250, 6000, replay="TestReplayC16", shrinktime="30s"),
         unit("cfgh", "TestC16Process", 40, 300, seed_off=700, workers={"quick": 1, "thorough": 4})]},
@@ -52,7 +59,12 @@ PLAN = {
     "C18": {"level": "exploration", "units": [
         unit("k8s", "TestC18Grid", 1, 1, replay="TestReplayC18", rapid=False, workers={"quick": 1, "thorough": 1}),
         unit("k8s", "TestC18List", 500, 5000, seed_off=300),
-        unit("k8s", "TestC18Seq", 500, 5000, seed_off=600)]},
-    "C19": {"level": "exploration", "units": [unit("cyc", "TestC19", 1500, 15000, replay="TestReplayC19")]},
-    "C20": {"level": "exploration", "units": [unit("expl", "TestC20", 40, 600, replay="TestReplayC20", shrinktime="30s")]},
+        unit("k8s", "TestC18Seq", 500, 5000, seed_off=600),
+        unit("k8s", "TestC18Coord", 300, 4000, seed_off=900)]},
+    "C19": {"level": "exploration", "units": [
+        unit("cyc", "TestC19", 1500, 15000, replay="TestReplayC19"),
+        unit("k8s", "TestC19K8s", 300, 4000, replay="TestReplayC19K8s", seed_off=900)]},
+    "C20": {"level": "exploration", "units": [
+        unit("expl", "TestC20", 40, 600, replay="TestReplayC20", shrinktime="30s"),
+        unit("expl", "TestC20Flood", 4, 12, seed_off=900, shrinktime="20s")]},
 }
